@@ -84,6 +84,36 @@ static std::string dt_line(const std::vector<std::string>& in) {
     return "";
 }
 
+// expected dump of a DOMLSParser run with LsFilter mode `fm` computed from the unfiltered dump: REJECT drops the subtree, SKIP splices the
+// children into the parent, rejected comments disappear; adjacent text is re-coalesced by project()
+static std::vector<std::string> ls_filter_expect(const std::vector<std::string>& in, int fm) {
+    if (fm == 1) return project(in, {}, false);
+    std::vector<std::string> out;
+    int rejectDepth = 0;                 // > 0: inside a rejected <c> subtree
+    std::vector<char> stack;             // per open element: 'k' kept, 's' skipped, 'r' rejected
+    for (size_t i = 0; i < in.size(); i++) {
+        const std::string& l = in[i];
+        bool isS = l.compare(0, 2, "S|") == 0, isE = l.compare(0, 2, "E|") == 0;
+        if (isS) {
+            std::string nm = l.substr(2, l.find('|', 2) - 2);
+            if (rejectDepth) { stack.push_back('r'); rejectDepth++; continue; }
+            if (nm == "c") { stack.push_back('r'); rejectDepth = 1; continue; }
+            if (nm == "i") { stack.push_back('s'); while (i + 1 < in.size() && in[i + 1].compare(0, 2, "A|") == 0) i++; continue; }
+            stack.push_back('k'); out.push_back(l); continue;
+        }
+        if (isE) {
+            char t = stack.empty() ? 'k' : stack.back(); if (!stack.empty()) stack.pop_back();
+            if (t == 'r') { rejectDepth--; continue; }
+            if (t == 's') continue;
+            out.push_back(l); continue;
+        }
+        if (rejectDepth) continue;
+        if (fm == 3 && l.compare(0, 2, "C|") == 0) continue;
+        out.push_back(l);
+    }
+    return project(out, {}, false);
+}
+
 static int g_k = 3;
 static unsigned g_apis = 0x1f, g_scn = 0xf, g_nsmask = 3;
 static bool g_content = true;
@@ -205,6 +235,18 @@ static void check_doc(const DocCase& dc, Ctx& c) {
                     if (at >= 0) diff_violation(c, api == DOM ? "dom-vs-sax2" : "domls-vs-sax2", doc, cfg.str(), a, b, at);
                     std::string d1 = dt_line(norm_lines(sax2)), d2 = dt_line(norm_lines(r.d.lines));
                     if (!d1.empty() && d1 != d2) diff_violation(c, "doctype-dom-vs-sax2", doc, cfg.str(), {d1}, {d2}, 0);
+                    if (api == DOMLS && sc == IG) {   // DOMLSParser with a filter: result = the unfiltered tree transformed by the DOM L3 LS filter rules
+                        for (int fm = 1; fm <= 3; fm++) {
+                            Config fc = cfg; fc.lsFilter = fm;
+                            ParseResult fr = parse_xerces(fc, io);
+                            c.count("parses"); c.count("filtered_parses");
+                            std::vector<std::string> exp = ls_filter_expect(r.d.lines, fm), got = project(fr.d.lines, {}, false);
+                            if (!fr.ok()) { c.violation("domls-filter-rejects-wellformed", "\"doc\":" + jstr(doc) + ",\"filter\":" + std::to_string(fm) + ",\"xerces_errors\":" + jstr(fr.errors.empty() ? fr.exc : fr.errors[0])); continue; }
+                            int fat = first_diff(exp, got);
+                            if (fat >= 0) diff_violation(c, fm == 1 ? "domls-accept-all-filter-vs-no-filter" : "domls-filter-vs-expected", doc, cfg.str() + " filter" + std::to_string(fm), exp, got, fat);
+                            if (exp != project(r.d.lines, {}, false)) c.count("filter_changed_tree");
+                        }
+                    }
                     if (haveRef) {  // DOM against the reference directly: attribute specified/defaulted flags, notations, unparsed entities
                         static const std::set<std::string> dropD = {"DT", "DTE", "DENT", "L"}, dropE = {"DT", "DTE", "IE", "XE", "L", "NS+", "NS-", "DPI", "DC", "NO", "UE"};
                         std::vector<std::string> rp = project(ref.d.lines, dropE, true), dp = project(r.d.lines, {"DT", "DTE", "DENT", "L", "NO", "UE"}, true);
